@@ -331,6 +331,45 @@ def history_oracle(rep, o, seed, stats):
     stats["history_cases"] = n
 
 
+def pol_term(tok, pos, hbname):
+    """Gallina term (type cpol of EqOrdPolModel.v) of a policy dump (concrete or semantic)."""
+    t = tok[pos]
+    pos += 1
+    if t == "unsat":
+        return "QUnsat", pos
+    if t == "triv":
+        return "QTriv", pos
+    if t in ("key", "after", "older"):
+        return "(%s %s)" % ({"key": "QKey", "after": "QAfter", "older": "QOlder"}[t], tok[pos]), pos + 1
+    if t in ("sha256", "hash256", "ripemd160", "hash160"):
+        return "(%s %s)" % ({"sha256": "QSha256", "hash256": "QHash256", "ripemd160": "QRipemd160", "hash160": "QHash160"}[t], hbname(tok[pos])), pos + 1
+    if t == "and":
+        n = int(tok[pos]); pos += 1
+        xs = []
+        for _ in range(n):
+            x, pos = pol_term(tok, pos, hbname)
+            xs.append(x)
+        return "(QAnd [%s])" % "; ".join(xs), pos
+    if t == "or":
+        n = int(tok[pos]); pos += 1
+        xs = []
+        for _ in range(n):
+            odds = tok[pos]
+            if not odds.endswith("@"):
+                raise DumpError("odds expected in %r" % tok)
+            x, pos = pol_term(tok, pos + 1, hbname)
+            xs.append("(%s, %s)" % (odds[:-1], x))
+        return "(QOr [%s])" % "; ".join(xs), pos
+    if t == "thresh":
+        k, n = tok[pos], int(tok[pos + 1]); pos += 2
+        xs = []
+        for _ in range(n):
+            x, pos = pol_term(tok, pos, hbname)
+            xs.append(x)
+        return "(QThresh %s [%s])" % (k, "; ".join(xs)), pos
+    raise DumpError("unknown policy token %r" % t)
+
+
 def desc_term(dump, hbname):
     """Gallina term (type `desc` of TranslateModel.v) of a descriptor dump."""
     tok = dump.split()
@@ -440,8 +479,33 @@ def gen_coq(o):
         cn.append("dwpairs_%d" % c)
     body.append("Definition dwpairs : list dwcase := %s." % " ++ ".join(cn))
     body.append("Definition ddom_eq : deqdom := mkDEqDom ranks_segv0 ranks_tap dvals dpairs dwpairs.")
+    # policies: ==, cmp against cpol_eqb / cpol_cmp (full keys)
+    pnames = []
+    for dom in ("conc", "sem"):
+        pv = o["V"].get(dom, {})
+        terms = []
+        for i in range(len(pv)):
+            tok = pv[i][1].split()
+            t, pos = pol_term(tok, 0, hbname)
+            if pos != len(tok):
+                raise DumpError("trailing tokens in %r" % pv[i][1])
+            terms.append(t)
+        cn = []
+        for c, ch in enumerate(chunks(terms, 300)):
+            body.append("Definition pvals_%s_%d : list cpol := [%s]." % (dom, c, ";\n  ".join(ch)))
+            cn.append("pvals_%s_%d" % (dom, c))
+        body.append("Definition pvals_%s : list cpol := %s." % (dom, " ++ ".join(cn)))
+        pl = ["(%d, %d, (%d, %d))" % (i, j, EQC[e], CMPC[c]) for (i, j), (e, c, h, r) in sorted(o["P"].get(dom, {}).items())]
+        cn = []
+        for c, ch in enumerate(chunks(pl, 1500)):
+            body.append("Definition ppairs_%s_%d : list ppcase := [%s]." % (dom, c, "; ".join(ch)))
+            cn.append("ppairs_%s_%d" % (dom, c))
+        body.append("Definition ppairs_%s : list ppcase := %s." % (dom, " ++ ".join(cn)))
+        body.append("Definition poldom_%s : poldom := mkPolDom %s ranks_segv0 pvals_%s ppairs_%s." % (dom, "true" if dom == "sem" else "false", dom, dom))
+        pnames.append("poldom_%s" % dom)
+    body.append("Definition poldoms : list poldom := [%s]." % "; ".join(pnames))
     head = ["(* generated by tools/props/c19.py from the output of `verif-harness eqord`; do not edit *)",
-            "From Verif Require Import EqOrdRun EqOrdDescRun.", "Local Open Scope N_scope."]
+            "From Verif Require Import EqOrdRun EqOrdDescRun EqOrdPolRun.", "Local Open Scope N_scope."]
     for h, nm in sorted(used.items(), key=lambda x: x[1]):
         bs = [str(int(h[i:i + 2], 16)) for i in range(0, len(h), 2)]
         head.append("Definition %s : bytes := [%s]." % (nm, "; ".join(bs)))
@@ -482,13 +546,24 @@ def coq_tie(rep, o, flagged, seed):
         rep.violation("tie:diag", "cases_match_model fails and the diagnosis did not run: " + (c3.stderr or c2.stderr)[-800:],
                       {"property": PID, "broken_tie": "Tables/EqOrdCasesCheck.v"}, False)
         return False, 0
-    pair_diag, stream_diag, spec_diag, desc_diag, wdiag = val
+    pair_diag, stream_diag, spec_diag, desc_diag, wdiag, pol_diag = val
+    n_pol = 0
+    for dom, rows in zip(("conc", "sem"), pol_diag):
+        for (i, j, impl, model) in rows:
+            n_pol += 1
+            if (dom, i, j) in flagged:
+                continue
+            rep.violation("tie:policy", "implementation and model disagree on ==/cmp of the policies [%s] %s | %s: impl %s model %s" %
+                          (dom, o["V"][dom][i][1], o["V"][dom][j][1], list(impl), list(model)),
+                          {"property": PID, "seed": seed, "domain": dom, "broken_tie": "policy_cases_match_model",
+                           "values": {str(i): o["V"][dom][i][1], str(j): o["V"][dom][j][1]},
+                           "implementation": list(impl), "model": list(model)}, False)
     for (i, j, wl_, wr_) in wdiag:
         rep.violation("tie:desc-history", "implementation and model disagree on ==/cmp of the descriptors %s | %s with left warmed=%s right warmed=%s" %
                       (o["V"]["desc"][i][1], o["V"]["desc"][j][1], wl_, wr_),
                       {"property": PID, "seed": seed, "domain": "desc", "broken_tie": "cases_match_model (descriptors under a cache history)",
                        "values": {str(i): o["V"]["desc"][i][1], str(j): o["V"]["desc"][j][1]}, "left_warmed": wl_, "right_warmed": wr_}, False)
-    n_desc = len(desc_diag) + len(wdiag)
+    n_desc = len(desc_diag) + len(wdiag) + n_pol
     for (i, j, impl, coded) in desc_diag:
         if ("desc", i, j) in flagged:
             continue
@@ -572,7 +647,7 @@ def run(rep, tier, seed, replay):
         for (i, j), v in ps[3:400:97][:3]:
             samples.append({"domain": dom, "a": o["V"][dom][i][1][:300], "b": o["V"][dom][j][1][:300],
                             "eq": v[0], "cmp": v[1], "hash_equal": v[2]})
-    tie_obl = 3
+    tie_obl = 4
     rep.coverage.update({
         "obligations": len(thms) + tie_obl,
         "discharged": (len(thms) if ok else 0) + (tie_obl if tie_ok else 0),
@@ -585,7 +660,7 @@ def run(rep, tier, seed, replay):
         "history_cases": stats.get("history_cases", 0),
         "distinct_nontrivial": sum(len(v) for v in o["V"].values()),
         "pairs": stats["pairs"], "triples": stats["triples"], "set_groups": stats["sets"], "clones": stats["clones"],
-        "pairs_compared_in_coq": sum(len(o["P"].get(d, {})) for d in MS_DOMS + ["desc"]) + len(o["W"].get("desc", [])),
+        "pairs_compared_in_coq": sum(len(o["P"].get(d, {})) for d in MS_DOMS + ["desc", "conc", "sem"]) + len(o["W"].get("desc", [])),
         "hash_streams_compared_in_coq": sum(len(o["H"].get(d, {})) for d in MS_DOMS),
         "differing_cases": ndiff,
         "rule": "generated miniscripts (type-directed, 4 contexts, all base types) + every single-step neighbour kind "
@@ -600,7 +675,7 @@ def run(rep, tier, seed, replay):
     })
     rep.assumptions = [
         "two values are structurally identical iff their canonical dumps are equal (the dump visits every field that Display prints)",
-        "policies and descriptor Hash are judged by the oracle and the order laws only (not modelled in Coq)",
+        "Hash of descriptors and policies (derived) is judged by the oracle only (not modelled in Coq); policy ==/cmp are modelled and tied",
         "the spend-info cache of Tr is modelled as run-time state that ==/cmp do not read; that the compiled code's answers do not depend "
         "on it (fresh / warmed / cloned operands) is observed per run on every tr pair, in Coq against the model and by the oracle",
         "keys are atoms: the key type's own Eq/Ord/Hash are assumed lawful (total_order hypothesis)"]
